@@ -174,6 +174,32 @@ def walk_tv(t, g, f, under_iface=False):
             walk_tv(ft, x, f, under_iface)
 
 
+def contributes(t, g):
+    """does this struct VALUE put at least one field into the Ion struct?  (an embedded nil pointer, a "-" field, an
+    unexported plain field and an omitempty field holding its empty value put nothing)"""
+    if t[0] != "ST" or g[0] != "S":
+        return True
+    for (name, ex, emb, tag, ft), gv in zip(t[1], g[1]):
+        parts = tag.split(b",")
+        tn = parts[0]
+        if tn == b"-" and len(parts) == 1:
+            continue
+        inner = ft[1] if ft[0] == "P" else ft
+        if emb and tn == b"" and inner[0] == "ST":
+            if ft[0] == "P":
+                if gv[1] is not None and contributes(inner, gv[1]):
+                    return True
+            elif contributes(inner, gv):
+                return True
+            continue
+        if not ex and not emb:
+            continue
+        if b"omitempty" in parts[1:] and mg.is_empty(ft, gv):
+            continue
+        return True
+    return False
+
+
 def triggers(t, g):
     tr = set()
 
@@ -219,9 +245,9 @@ def triggers(t, g):
                 if emb and ft[0] == "P" and ft[1][0] == "ST" and tag.split(b",")[0] == b"" and g[0] == "S" and idx < len(g[1]) \
                         and g[1][idx][0] == "P" and g[1][idx][1] is not None:
                     try:
-                        if not py_fields(ft[1]):
+                        if not py_fields(ft[1]) or not contributes(ft[1], g[1][idx][1]):
                             tr.add("embedded-ptr-fieldless")
-                    except DupField:
+                    except (DupField, IndexError, TypeError):
                         pass
             for (name, ex, emb, tag, ft) in t[1]:
                 if emb and tag.split(b",")[0] == b"" and (ft[1] if ft[0] == "P" else ft)[0] in ("TS", "DEC", "BIG", "TIME"):
